@@ -36,10 +36,14 @@ var rewrites = []rewrite{
 	{"metrics/verif_export.go", map[string]string{"sync/atomic": modPath + "/verifshim/vatomic"}},
 	{"metrics/histograms.go", map[string]string{"sync": modPath + "/verifshim/vsync", "sync/atomic": modPath + "/verifshim/vatomic"}},
 	{"protocol/binprot/headers.go", map[string]string{"sync": modPath + "/verifshim/vsync"}},
+	{"handlers/memcached/batched/conn.go", map[string]string{"net": modPath + "/verifshim/vnet", "math/rand": modPath + "/verifshim/vrand"}},
+	{"handlers/memcached/batched/handler.go", map[string]string{"math/rand": modPath + "/verifshim/vrand"}},
+	{"handlers/memcached/batched/relay.go", map[string]string{"math/rand": modPath + "/verifshim/vrand"}},
+	{"handlers/memcached/batched/types.go", map[string]string{"crypto/rand": modPath + "/verifshim/vcrand"}},
 }
 
 // shimPkgs are directories under -shim copied to <repo>/verifshim/<name>.
-var shimPkgs = []string{"vsync", "vatomic"}
+var shimPkgs = []string{"vsync", "vatomic", "vnet", "vrand", "vcrand"}
 
 func die(f string, a ...interface{}) {
 	fmt.Fprintf(os.Stderr, "overlaygen: "+f+"\n", a...)
@@ -179,4 +183,49 @@ func VerifMutex() interface{} { return singleton.mutex }
 		die("%v", err)
 	}
 	replace[filepath.Join(repo, "handlers", "inmem", "verif_export.go")] = dst
+
+	// handle on the batching pool for C06/C13: grow the pool deterministically, read its size
+	rel, err := os.ReadFile(filepath.Join(repo, "handlers", "memcached", "batched", "relay.go"))
+	if err != nil {
+		die("%v", err)
+	}
+	for _, need := range []string{"relays    = make(map[string]*relay)", "func (r *relay) addConn()", "conns       atomic.Value"} {
+		if !strings.Contains(string(rel), need) {
+			die("handlers/memcached/batched/relay.go no longer contains %q: the C06/C13 export cannot be generated", need)
+		}
+	}
+	bexp := `package batched
+
+// VerifAddConn adds one pooled connection to the relay of the socket (what the monitor does when
+// it decides to expand).
+func VerifAddConn(sock string) {
+	relayLock.RLock()
+	r := relays[sock]
+	relayLock.RUnlock()
+	r.addConn()
+}
+
+// VerifPoolSize reports the number of pooled connections of the socket's relay.
+func VerifPoolSize(sock string) int {
+	relayLock.RLock()
+	r := relays[sock]
+	relayLock.RUnlock()
+	if r == nil {
+		return 0
+	}
+	return len(r.conns.Load().([]*conn))
+}
+
+// VerifForget drops the relay of a socket from the process-wide table (the goroutines stay).
+func VerifForget(sock string) {
+	relayLock.Lock()
+	delete(relays, sock)
+	relayLock.Unlock()
+}
+`
+	dst = filepath.Join(work, "batched__verif_export.go")
+	if err := os.WriteFile(dst, []byte(bexp), 0o644); err != nil {
+		die("%v", err)
+	}
+	replace[filepath.Join(repo, "handlers", "memcached", "batched", "verif_export.go")] = dst
 }
